@@ -271,7 +271,10 @@ class Failure:
 
 
 class OracleResult:
+    LAST = None      # the sweep in progress (its failing inputs found so far survive a crash of the sweep, see check.py)
+
     def __init__(self):
+        OracleResult.LAST = self
         self.evaluations = 0
         self.nontrivial = set()
         self.failures = []
